@@ -394,6 +394,9 @@ func compatCmd(a Args) {
 	for i := 0; i < n/20+2; i++ {
 		recursiveGroup(s, g)
 	}
+	for i := 0; i < n/4+8; i++ {
+		historyGroup(s, g)
+	}
 	writeStats(a.Out, s.sink, g)
 }
 
@@ -1055,6 +1058,193 @@ func kindMatrix(s *compatSink) {
 					s.finding(Finding{Prop: "C15", What: "a schema is not compatible with an identical one: " + c.name + " (" + em.name + "): " + r.Msg, Cases: []int{id}})
 				}
 			}
+		}
+	}
+}
+
+// collectRefs lists the reference schemas below x (through properties, lists, maps, one-of members and
+// nested scopes), each once.
+func compatCollectRefs(x any, seen map[any]bool, out *[]*schema.RefSchema) {
+	if x == nil || seen[x] {
+		return
+	}
+	switch t := x.(type) {
+	case *schema.RefSchema:
+		seen[x] = true
+		*out = append(*out, t)
+	case *schema.ScopeSchema:
+		seen[x] = true
+		for _, o := range t.ObjectsValue {
+			compatCollectRefs(o, seen, out)
+		}
+	case *schema.ObjectSchema:
+		seen[x] = true
+		for _, p := range t.PropertiesValue {
+			compatCollectRefs(p.TypeValue, seen, out)
+		}
+	case *schema.ListSchema:
+		compatCollectRefs(t.ItemsValue, seen, out)
+	case *schema.MapSchema[schema.Type, schema.Type]:
+		compatCollectRefs(t.KeysValue, seen, out)
+		compatCollectRefs(t.ValuesValue, seen, out)
+	case *schema.OneOfSchema[string]:
+		seen[x] = true
+		for _, m := range t.TypesValue {
+			compatCollectRefs(m, seen, out)
+		}
+	case *schema.OneOfSchema[int64]:
+		seen[x] = true
+		for _, m := range t.TypesValue {
+			compatCollectRefs(m, seen, out)
+		}
+	}
+}
+
+// linkState: for every reference, whether it is linked and to which object value.
+func linkState(refs []*schema.RefSchema) []any {
+	st := make([]any, len(refs))
+	for i, r := range refs {
+		if r.ObjectReady() {
+			st[i] = r.GetObject()
+		}
+	}
+	return st
+}
+
+// historyGroup (C12 / C15, oracle-only): the verdict of ValidateCompatibility is a function of the two
+// schemas as they are at the time of the call, and the call changes neither of them.
+//   - a consumer that has accepted a producer is asked again after that SAME producer value was edited in
+//     place through its exported fields (objects and root replaced by those of a single-feature mutant):
+//     the verdict must be the one a freshly built pair gives;
+//   - the same with the consumer edited in place;
+//   - an argument scope whose references are NOT linked yet (objects assembled by hand, ApplySelf not called)
+//     is as unlinked after the call as before; a linked argument keeps every link on the same object value.
+func historyGroup(s *compatSink, g *hx.Gen) {
+	var t *hx.Ty
+	for tries := 0; ; tries++ {
+		t = g.Scope(0)
+		if !recursive(t) && sane(t) {
+			break
+		}
+		if tries > 50 {
+			return
+		}
+	}
+	class := func(err error) string {
+		if err == nil {
+			return "ok"
+		}
+		return "err"
+	}
+	verdict := func(c, p schema.Type) (string, string) {
+		var err error
+		r := hx.Guard(func() hx.Result { err = c.ValidateCompatibility(p); return hx.Result{R: "ok"} })
+		if r.R != "ok" {
+			return "panic", r.Msg
+		}
+		if err != nil {
+			return class(err), err.Error()
+		}
+		return "ok", ""
+	}
+	var consumer, producer *schema.ScopeSchema
+	if b := hx.Guard(func() hx.Result {
+		consumer = t.Build().(*schema.ScopeSchema)
+		producer = cloneTy(t).Build().(*schema.ScopeSchema)
+		return hx.Result{R: "ok"}
+	}); b.R != "ok" {
+		return
+	}
+	// argument preservation: links of a linked argument
+	var refs []*schema.RefSchema
+	compatCollectRefs(producer, map[any]bool{}, &refs)
+	before := linkState(refs)
+	first, _ := verdict(consumer, producer)
+	s.stats["history:first:"+first]++
+	after := linkState(refs)
+	for i := range before {
+		if before[i] != after[i] {
+			s.finding(Finding{Prop: "C12", What: "ValidateCompatibility changed what a reference of its ARGUMENT is linked to", Schema: t,
+				Detail: []string{fmt.Sprintf("reference %q in namespace %q", refs[i].ID(), refs[i].Namespace())}})
+			break
+		}
+	}
+	// an argument that is not linked yet stays unlinked
+	if len(refs) > 0 {
+		var loose *schema.ScopeSchema
+		if b := hx.Guard(func() hx.Result {
+			objs := map[string]*schema.ObjectSchema{}
+			for _, o := range t.Objs {
+				objs[o.ID] = cloneTy(o.Ty).BuildObject()
+			}
+			loose = &schema.ScopeSchema{ObjectsValue: objs, RootValue: t.Root}
+			return hx.Result{R: "ok"}
+		}); b.R == "ok" {
+			var lrefs []*schema.RefSchema
+			compatCollectRefs(loose, map[any]bool{}, &lrefs)
+			b0 := linkState(lrefs)
+			_, _ = verdict(consumer, loose) // whatever it answers (it may refuse or even panic on unlinked references)
+			b1 := linkState(lrefs)
+			s.stats["history:loose-argument"]++
+			for i := range b0 {
+				if b0[i] != b1[i] {
+					s.finding(Finding{Prop: "C12", What: "ValidateCompatibility linked the references of its ARGUMENT (a scope that was not linked before the call is linked after it)", Schema: t,
+						Detail: []string{fmt.Sprintf("reference %q", lrefs[i].ID())}})
+					break
+				}
+			}
+		}
+	}
+	if first != "ok" {
+		return
+	}
+	// verdicts after in-place edits
+	for k := 0; k < 6; k++ {
+		o := cloneTy(t)
+		m, ok := mutate(g, o, map[string]*hx.Ty{}, 0)
+		if !ok || o.T != "scope" {
+			continue
+		}
+		var edited, freshC, freshP *schema.ScopeSchema
+		if b := hx.Guard(func() hx.Result {
+			edited = o.Build().(*schema.ScopeSchema)
+			freshC = t.Build().(*schema.ScopeSchema)
+			freshP = cloneTy(o).Build().(*schema.ScopeSchema)
+			return hx.Result{R: "ok"}
+		}); b.R != "ok" {
+			continue
+		}
+		for _, side := range []string{"producer", "consumer"} {
+			var want, got, gotMsg string
+			if side == "producer" {
+				want, _ = verdict(freshC, freshP)
+				producer.ObjectsValue, producer.RootValue = edited.ObjectsValue, edited.RootValue
+				got, gotMsg = verdict(consumer, producer)
+			} else {
+				want, _ = verdict(freshP, freshC)
+				// the consumer side: a scope that accepted the original producer twin, then edited in place
+				c2 := cloneTy(t).Build().(*schema.ScopeSchema)
+				p2 := cloneTy(t).Build().(*schema.ScopeSchema)
+				if v, _ := verdict(c2, p2); v != "ok" {
+					continue
+				}
+				c2.ObjectsValue, c2.RootValue = edited.ObjectsValue, edited.RootValue
+				got, gotMsg = verdict(c2, p2)
+			}
+			s.stats["history:edited-"+side+":"+want]++
+			if got != want {
+				s.finding(Finding{Prop: "C15", What: "the verdict for a " + side + " scope that was edited in place after an accepted comparison differs from the verdict for a freshly built pair with the same content",
+					Schema: t, Detail: []string{"edit: " + m.what, "fresh pair: " + want, "same values after the edit: " + got + " " + gotMsg}})
+				s.finding(Finding{Prop: "C12", What: "ValidateCompatibility depends on an earlier call: the verdict for a " + side + " scope edited in place after an accepted comparison differs from a freshly built pair",
+					Schema: t, Detail: []string{"edit: " + m.what, "fresh pair: " + want, "same values after the edit: " + got + " " + gotMsg}})
+				return
+			}
+		}
+		// restore the producer for the next edit: it must be accepted again
+		fresh := cloneTy(t).Build().(*schema.ScopeSchema)
+		producer.ObjectsValue, producer.RootValue = fresh.ObjectsValue, fresh.RootValue
+		if v, _ := verdict(consumer, producer); v != "ok" {
+			return
 		}
 	}
 }
